@@ -62,13 +62,15 @@ class ExpressionGenerator:
     def generate_geometry_tables(self):
         """Generate static tables of geometry data."""
         ufl_geometry = {
-            ufl.geometry.FacetEdgeVectors: "facet_edge_vectors",
+            ufl.geometry.FacetEdgeVectors: "facet_edge_vertices",
             ufl.geometry.CellFacetJacobian: "cell_facet_jacobian",
+            ufl.geometry.CellRidgeJacobian: "cell_ridge_jacobian",
             ufl.geometry.ReferenceCellVolume: "reference_cell_volume",
             ufl.geometry.ReferenceFacetVolume: "reference_facet_volume",
             ufl.geometry.ReferenceCellEdgeVectors: "reference_cell_edge_vectors",
             ufl.geometry.ReferenceFacetEdgeVectors: "reference_facet_edge_vectors",
             ufl.geometry.ReferenceNormal: "reference_normals",
+            ufl.geometry.FacetOrientation: "facet_orientation",
         }
 
         cells: dict[Any, set[Any]] = {t: set() for t in ufl_geometry.keys()}  # type: ignore
